@@ -156,6 +156,24 @@ FunctionNodeSet::execute(
 
         return theResult;
     }
+    else if (m_convertString == true &&
+             (theType == XObject::eTypeNumber || theType == XObject::eTypeBoolean))
+    {
+        // A number or a boolean is converted to a string, and the result
+        // is a node-set that holds a single text node with that string...
+        const XObjectPtr    theString(
+                        executionContext.getXObjectFactory().createString(
+                            args[0]->str(executionContext)));
+
+        const XObjectPtr    theResult(
+                        XalanDocumentFragmentXNodeSetBaseProxy::create(
+                            executionContext,
+                            theString));
+
+        executionContext.getXObjectFactory().holdReference(theResult);
+
+        return theResult;
+    }
     else
     {
         const GetCachedString   theGuard(executionContext);
